@@ -1,4 +1,149 @@
-(** C08 placeholder while the refinement proof is being written *)
-From GH Require Import Base.Prelude Model.Store Model.StoreSpec.
-Theorem C08_placeholder : True. Proof. exact I. Qed.
-Print Assumptions C08_placeholder.
+(** C08 — DeleteRange removes exactly the requested end of the chain, permanently.
+
+    Setting as in Props/C04.v: a chain [c] over [1, U] with [chain_hyps c U], the state
+    [s := run c (st0 b) ops] reached from the empty store with batch size [b] by ANY history
+    [ops] (Appends in any order — so any mix of flushed and still pending headers —,
+    DeleteRanges with failing handlers, restarts).  [delete_range s (script_of fails) nh from to]
+    is DeleteRange(from, to) with [nh] handlers failing at the scripted pairs; it returns the new
+    state, the handler log and the outcome ([Ok] = nil, [Fail] = error). *)
+From Coq Require Import NArith List Bool.
+From stdpp Require Import gmap.
+From GH Require Import Base.Prelude Model.Store Model.StoreSpec Oracle.StoreCase.
+From GH Require Import Proofs.StoreP Proofs.StoreMainP Proofs.StoreC04P Proofs.StoreC08P.
+Import ListNotations.
+Open Scope N_scope.
+
+(** [valid_shape T H from to] := (from = T /\ T < to <= H+1) \/ (T < from <= H /\ to = H+1):
+    a prefix starting at Tail (the whole chain when to = Head+1) or a suffix ending at Head+1.
+    Every other range — and every range on an empty store — is rejected with an error and no
+    handler is called; the only thing that happened is the Store.Sync every DeleteRange starts
+    with ([sync s]: the pending batch is written out), which changes no read
+    ([C08_sync_changes_no_read]). *)
+Theorem C08_rejects_other_ranges : forall c U, chain_hyps c U -> forall b ops, Forall (op_ok U) ops ->
+  forall from to nh fails,
+  let s := run c (st0 b) ops in
+  (headp s = None \/
+   exists hd tl, headp s = Some hd /\ tailp s = Some tl /\ ~ valid_shape (h_height tl) (h_height hd) from to) ->
+  delete_range s (script_of fails) nh from to = (sync s, [], Fail).
+Proof. exact @hist_delete_rejects. Qed.
+
+Theorem C08_sync_changes_no_read : forall c U, chain_hyps c U -> forall b ops, Forall (op_ok U) ops ->
+  let s := run c (st0 b) ops in
+  let s' := sync s in
+  headp s' = headp s /\ tailp s' = tailp s /\ hsh s' = hsh s /\
+  (forall n, get_by_height s' n = get_by_height s n) /\
+  (forall n, inr U n -> get s' (h_id (c n)) = get s (h_id (c n)) /\ has s' (h_id (c n)) = has s (h_id (c n))) /\
+  (forall n, has_at s' n = has_at s n) /\
+  (forall from to, get_range s' from to = get_range s from to).
+Proof. exact @hist_sync_changes_no_read. Qed.
+
+(** an accepted range whose handlers do not fail inside it returns nil *)
+Theorem C08_accepts_ends : forall c U, chain_hyps c U -> forall b ops, Forall (op_ok U) ops ->
+  forall from to nh fails hd tl,
+  let s := run c (st0 b) ops in
+  headp s = Some hd -> tailp s = Some tl -> valid_shape (h_height tl) (h_height hd) from to ->
+  no_fail_in fails from to ->
+  snd (delete_range s (script_of fails) nh from to) = Ok.
+Proof. exact @hist_delete_accepts. Qed.
+
+(** after nil no header of the range is retrievable by height or by hash (whether it had been
+    flushed or was still in the write batch: every history, every batch size) *)
+Theorem C08_success_removes_range : forall c U, chain_hyps c U -> forall b ops, Forall (op_ok U) ops ->
+  forall from to nh fails s' log,
+  let s := run c (st0 b) ops in
+  delete_range s (script_of fails) nh from to = (s', log, Ok) ->
+  forall n, from <= n < to ->
+  (forall h, get_by_height s' n <> Found h) /\
+  (inr U n -> get s' (h_id (c n)) = NotFound /\ has s' (h_id (c n)) = false).
+Proof. exact @hist_delete_success_removes. Qed.
+
+(** whatever the outcome (nil, rejected, failed part-way), every header outside the range is untouched *)
+Theorem C08_outside_untouched : forall c U, chain_hyps c U -> forall b ops, Forall (op_ok U) ops ->
+  forall from to nh fails s' log out,
+  let s := run c (st0 b) ops in
+  delete_range s (script_of fails) nh from to = (s', log, out) ->
+  forall n, inr U n -> ~ (from <= n < to) ->
+  get s' (h_id (c n)) = get s (h_id (c n)) /\ has s' (h_id (c n)) = has s (h_id (c n)) /\
+  (get_by_height s n = Found (c n) <-> get_by_height s' n = Found (c n)).
+Proof. exact @hist_delete_outside_untouched. Qed.
+
+(** after nil, Head and Tail describe the remaining chain *)
+Theorem C08_new_ends : forall c U, chain_hyps c U -> forall b ops, Forall (op_ok U) ops ->
+  forall from to nh fails s' log hd tl,
+  let s := run c (st0 b) ops in
+  delete_range s (script_of fails) nh from to = (s', log, Ok) ->
+  headp s = Some hd -> tailp s = Some tl ->
+  (from = h_height tl /\ to = h_height hd + 1 -> headp s' = None /\ tailp s' = None) /\
+  (from = h_height tl /\ to <= h_height hd -> headp s' = Some hd /\ tailp s' = Some (c to)) /\
+  (h_height tl < from -> headp s' = Some (c (from - 1)) /\ tailp s' = Some tl).
+Proof. exact @hist_delete_new_ends. Qed.
+
+(** ... and after ANY DeleteRange (also a failed one) Tail and Head resolve to stored headers
+    with Tail <= Head and every height between them retrievable: the state after the delete is
+    the state of the history [ops ++ [IDelete ...]], to which the C04 theorems apply *)
+Theorem C08_ends_resolve_after_delete : forall c U, chain_hyps c U -> forall b ops from to nh fails,
+  Forall (op_ok U) (ops ++ [IDelete from to nh fails]) ->
+  let s' := run c (st0 b) (ops ++ [IDelete from to nh fails]) in
+  forall hd tl, headp s' = Some hd -> tailp s' = Some tl ->
+  forall n, h_height tl <= n <= h_height hd ->
+  get_by_height s' n = Found (c n) /\ h_height (c n) = n /\ get s' (h_id (c n)) = Found (c n) /\
+  has s' (h_id (c n)) = true /\ has_at s' n = true.
+Proof. exact (fun c U CH b ops from to nh fails => @hist_range_retrievable c U CH b (ops ++ [IDelete from to nh fails])). Qed.
+
+(** permanence: none of the deleted headers reappears after any continuation of Appends of
+    other heights, further DeleteRanges, flushes and restarts ([avoids from to o]: an Append
+    in the continuation contains no height of [from, to)) *)
+Theorem C08_permanent : forall c U, chain_hyps c U -> forall b ops, Forall (op_ok U) ops ->
+  forall from to nh fails s' log ops',
+  let s := run c (st0 b) ops in
+  delete_range s (script_of fails) nh from to = (s', log, Ok) ->
+  Forall (op_ok U) ops' -> Forall (avoids from to) ops' ->
+  forall n, from <= n < to ->
+  let s2 := run c s' ops' in
+  (forall h, get_by_height s2 n <> Found h) /\
+  (inr U n -> get s2 (h_id (c n)) = NotFound /\ has s2 (h_id (c n)) = false).
+Proof. exact @hist_delete_permanent. Qed.
+
+(** a tail-side (or whole-chain) deletion that failed part-way moved Tail to the failing
+    height [k], which is still readable; retrying from the new Tail with handlers that do not
+    fail completes the deletion: nothing of the original range is left *)
+Theorem C08_retry_completes : forall c U, chain_hyps c U -> forall b ops, Forall (op_ok U) ops ->
+  forall from to nh fails s1 log1 hd tl,
+  let s := run c (st0 b) ops in
+  headp s = Some hd -> tailp s = Some tl -> from = h_height tl ->
+  valid_shape (h_height tl) (h_height hd) from to ->
+  delete_range s (script_of fails) nh from to = (s1, log1, Fail) ->
+  exists k, from <= k < to /\ tailp s1 = Some (c k) /\ headp s1 = Some hd /\
+            get_by_height s1 k = Found (c k) /\
+    forall nh' fails', no_fail_in fails' k to ->
+    exists s2 log2, delete_range s1 (script_of fails') nh' k to = (s2, log2, Ok) /\
+      forall n, from <= n < to ->
+        (forall h, get_by_height s2 n <> Found h) /\
+        (inr U n -> get s2 (h_id (c n)) = NotFound /\ has s2 (h_id (c n)) = false).
+Proof. exact @hist_delete_retry_completes. Qed.
+
+(** non-vacuity: a store with flushed (1..4) and pending (5..6) headers; a rejected middle
+    range, a tail-side delete over both kinds failing at 3, the retry, then re-append of other
+    heights and a reopen: 1..4 stay gone *)
+Example C08_history :
+  let c := simple_chain in
+  let s := run c (st0 4) [IAppend [1; 2; 3; 4]; IAppend [5; 6]] in
+  size (pend_h s) = 2%nat /\
+  delete_range s (script_of []) 1 2 4 = (sync s, [], Fail) /\ size (pend_h (sync s)) = 0%nat /\
+  let '(s1, log1, out1) := delete_range s (script_of [(0%nat, 3, false)]) 1 1 5 in
+  out1 = Fail /\ option_map h_height (tailp s1) = Some 3 /\ length log1 = 3%nat /\
+  let '(s2, lg2, out2) := delete_range s1 (script_of []) 1 3 5 in
+  out2 = Ok /\ option_map h_height (tailp s2) = Some 5 /\
+  let s3 := run c s2 [IAppend [7]; IReopen; IAppend [8]] in
+  get_by_height s3 4 = NotFound /\ get s3 (h_id (c 2)) = NotFound /\ option_map h_height (headp s3) = Some 8.
+Proof. vm_compute. repeat split. Qed.
+
+Print Assumptions C08_rejects_other_ranges.
+Print Assumptions C08_sync_changes_no_read.
+Print Assumptions C08_accepts_ends.
+Print Assumptions C08_success_removes_range.
+Print Assumptions C08_outside_untouched.
+Print Assumptions C08_new_ends.
+Print Assumptions C08_ends_resolve_after_delete.
+Print Assumptions C08_permanent.
+Print Assumptions C08_retry_completes.
